@@ -116,6 +116,13 @@ def judge(case, out, args):
         elif cn.kind == "quic":
             ends = {(cn.client.ip, cn.client.port)}
             in_ts = {True: {p["ts"] for p in cn.packets if p["isserver"]}, False: {p["ts"] for p in cn.packets if not p["isserver"]}}
+            # the bytes attributed to a sender are the bytes that sender's datagrams carried (whatever the capture clock's resolution)
+            for srv in (False, True):
+                sent = b"".join(x for p in cn.packets if p["isserver"] == srv for k, x in cn.s.conn.datagrams[p["idx"]]["ordered"] if k == "stream" or meta)
+                got = b"".join(bytes(fr["payload"]) for ts, fr in pkts if fr["kind"] == "udp" and
+                               (((fr["src"], fr["sport"]) in ends and not srv) or ((fr["dst"], fr["dport"]) in ends and srv)))
+                if got != sent:
+                    return "QUIC: %d bytes are exported as sent by the %s, which sent %d" % (len(got), "server" if srv else "client", len(sent))
             for ts, fr in pkts:
                 if fr["kind"] == "udp" and ((fr["src"], fr["sport"]) in ends or (fr["dst"], fr["dport"]) in ends):
                     why = frame_ok(fr, cn, args)
@@ -160,7 +167,31 @@ def main():
     n = 40 if ck.tier == "quick" else 600
     n_model = 8 if ck.tier == "quick" else 60
     option_sets = [[], ["-a"], ["-m"], [], ["-m", "443:9000"], ["-a"]]
-    for i, case in enumerate(pool.cases(rng, table, hist, n, noise_share=0.0)):
+    def all_cases():
+        for i, case in enumerate(pool.cases(rng, table, hist, n, noise_share=0.0)):
+            yield case
+            if i % 3 == 0:
+                # one connection whose segments end on record boundaries, with late (overtaken) segments and a retransmission: the
+                # reassembly queue then holds segments that touch a record without overlapping it
+                cn = pool.tls_conn(rng, table, hist, idx=1, schedule="records", nrec=rng.choice([3, 6, 10]), reclen=rng.choice([1, 40, 300]))
+                pk = cn.packets
+                for kind in ("late", "late", "duplicate"):
+                    pk2 = capgen.perturb(rng, pk, kind)
+                    pk = pk2 if pk2 is not None else pk
+                cn.packets = pk
+                hist["late-segments"] += 1
+                yield pool.build(rng, [cn], hist)
+            if i % 3 == 1:
+                # a QUIC connection seen through a coarse capture clock: consecutive datagrams, also of opposite directions, share a time
+                cn = pool.quic_conn(rng, hist, idx=1, napp=rng.choice([5, 10]))
+                case2 = pool.build(rng, [cn], hist)
+                tick = rng.choice([1000, 10000, 1000000])
+                for p in case2.packets:
+                    p["ts"] = p["ts"] - p["ts"] % tick + 123
+                case2.capture = capgen.to_pcapng(case2.packets)
+                hist["coarse-clock"] += 1
+                yield case2
+    for i, case in enumerate(all_cases()):
         args = option_sets[i % len(option_sets)]
         hist["options=%s" % " ".join(args)] += 1
         st, out = impl.run(case.capture, case.keylog, args)
